@@ -50,7 +50,7 @@ def library_budget():
     return int(be.REDUCTION_STEPS_BOUND)
 
 
-def derive(tree, budget=None, prep=None):
+def derive(tree, budget=None, prep=None, sparse=False):
     """single-step the real rewriter on a fresh copy, then NF; and an independent end-to-end _normalize().
     prep() builds the input object (default: fresh from the tree); it is called twice so that the stepped
     object and the end-to-end object have the same history."""
@@ -69,6 +69,8 @@ def derive(tree, budget=None, prep=None):
         forms = forms[:80]       # a runaway derivation: keep a prefix (enough to exhibit a cycle), TLC reports the bound
     elif steps >= 400:
         forms.append(snapshot(obj))
+    if sparse and len(forms) > 2:
+        forms = [forms[0], forms[-1]]     # very large inputs: only the end points are recorded (judged as one pair, plus NF and end to end)
     nf = snapshot(obj._normalize_fully_reduced()) if not capped else forms[-1]
     fresh = prep() if prep is not None else J.build_tree(tree)
     h = WarnCatcher()
@@ -210,7 +212,7 @@ def run(pid, tier, seed):
     if tier == "thorough":
         for k in range(40):
             big.append(gen.random_tree(random.Random(seed * 17 + k), 6))
-        big = [t for t in big if 150 <= J.size(t) <= 700][:12]
+        big = [t for t in big if 150 <= J.size(t) <= 700][:8]
     todo = [(t, None, None) for t in ins] + [(t, b, None) for t, b in giveup] + [(t, None, None) for t in big]
     todo += [(t, None, prep) for t, prep in second_round(rnd, tier)]
     if REPLAY is not None:
@@ -218,7 +220,7 @@ def run(pid, tier, seed):
     skipped_overflow = 0
     for i, (t, b, prep) in enumerate(todo, 1):
         try:
-            d = derive(t, budget=b, prep=prep)
+            d = derive(t, budget=b, prep=prep, sparse=J.size(t) >= 150)
         except OverflowError:
             skipped_overflow += 1      # exact intermediates leave the floating-point range: excluded by the properties
             continue
